@@ -26,6 +26,7 @@ type provProfile struct {
 	prelaunch                                                              int  // consumers created, opted into and launched before the random part
 	wInfr                                                                  int  // infraction-parameter updates of launched consumers
 	wReward                                                                int  // ICS reward transfers, denom registration, tax
+	wEvid                                                                  int  // equivocation evidence (signed duplicate votes)
 	rewEpochs                                                              int
 	keyPool                                                                int  // number of extra consumer keys (default 10)
 	nvExtra                                                                int  // validator ids that may be created later
@@ -199,7 +200,7 @@ func (p *provRunner) ownerOf(c string) string {
 }
 
 func (p *provRunner) genOne(r *Rng, prof provProfile) string {
-	ws := []int{prof.wCreate, prof.wUpdate, prof.wRemove, prof.wOpt, prof.wAssign, prof.wStake, prof.wBlock, prof.wChan, prof.wSlash, prof.wMisc, prof.wParams, prof.wVal, prof.wInfr, prof.wReward}
+	ws := []int{prof.wCreate, prof.wUpdate, prof.wRemove, prof.wOpt, prof.wAssign, prof.wStake, prof.wBlock, prof.wChan, prof.wSlash, prof.wMisc, prof.wParams, prof.wVal, prof.wInfr, prof.wReward, prof.wEvid}
 	switch pickWeighted(r, ws) {
 	case 0: // create
 		chain := fmt.Sprintf("c%d-1", r.intn(4))
@@ -323,6 +324,15 @@ func (p *provRunner) genOne(r *Rng, prof provProfile) string {
 		return fmt.Sprintf("assign v=%d c=%s key=%d signer=%d", v, c, p.genKey(r, prof), signer)
 	case 5: // staking
 		v := r.intn(prof.nv)
+		if prof.wEvid > 0 && r.chance(40) {
+			// unbonding delegations / redelegations: matured, maturing exactly now, in the future, on hold
+			amt := []int64{500000, 1000000, 1500000, 2999999, 1}[r.intn(5)]
+			at := p.now() + []int64{-sec, 0, 1, 30 * sec}[r.intn(4)]
+			if r.chance(8) {
+				return fmt.Sprintf("%s v=%d", []string{"stkunbond", "stktomb"}[r.intn(2)], v)
+			}
+			return fmt.Sprintf("%s v=%d amt=%d at=%d hold=%d", []string{"stkubd", "stkred"}[r.intn(2)], v, amt, at, b2i(r.chance(25)))
+		}
 		switch r.intn(8) {
 		case 0:
 			// environment assumption A-STK-POS: the bonded set never becomes empty
@@ -363,6 +373,8 @@ func (p *provRunner) genOne(r *Rng, prof provProfile) string {
 		c := p.pickConsumer(r)
 		v := r.intn(prof.nv)
 		return fmt.Sprintf("commission v=%d c=%s rate=%s signer=%d", v, c, []string{"0.050000000000000000", "0.100000000000000000", "0.010000000000000000", "1.000000000000000000"}[r.intn(4)], v)
+	case 14:
+		return p.genEvidence(r, prof)
 	case 13:
 		p.chanSeq++
 		switch r.intn(10) {
@@ -635,7 +647,14 @@ func genProv(prof provProfile) func(r *Rng, run Runner, n int, tier string) {
 		if prof.prelaunch > 0 {
 			// ids 0..prelaunch-1 (so that "1" and "10", "11" coexist), all launched in the first blocks
 			for i := 0; i < prof.prelaunch; i++ {
-				run.Do(fmt.Sprintf("create s=u%d chain=c%d-1 init=1 spawn=%d ps=1 topn=0 setcap=0 powcap=0 minstake=0 inactive=1 allow= deny= prio=", i%3, i%4, 2*sec+int64(i%3)))
+				cr := fmt.Sprintf("create s=u%d chain=c%d-1 init=1 spawn=%d ps=1 topn=0 setcap=0 powcap=0 minstake=0 inactive=1 allow= deny= prio=", i%3, i%4, 2*sec+int64(i%3))
+				if prof.wEvid > 0 {
+					// consumers sharing chain ids (c0-1 twice) with different double-sign parameters, tombstoning on and off
+					cr = strings.Replace(cr, fmt.Sprintf("chain=c%d-1", i%4), fmt.Sprintf("chain=c%d-1", i%3), 1)
+					cr += fmt.Sprintf(" infr=1 ds=%s:%d:%d", []string{"0.050000000000000000", "0.010000000000000000", "0.500000000000000000", "0.000000000000000000"}[i%4],
+						[]int64{30 * sec, 9223372036854775807, 5 * sec}[i%3], i%2)
+				}
+				run.Do(cr)
 				run.Do(fmt.Sprintf("optin v=%d c=%d key=- signer=%d", i%prof.nv, i, i%prof.nv))
 				if r.chance(50) {
 					v2 := (i + 1) % prof.nv
@@ -701,6 +720,173 @@ func init() {
 	streams["infraction"] = StreamDef{New: func(t *Trace) Runner { return newProvRunner(t) }, Gen: genProv(inf)}
 	rw := provProfile{name: "rewards", nv: 5, maxvals: 5, M: 4, epoch: 2, unb: 12 * sec, prelaunch: 4, rewEpochs: 2, lowPower: true,
 		wCreate: 2, wUpdate: 3, wRemove: 1, wOpt: 14, wAssign: 2, wStake: 8, wBlock: 26, wMisc: 6, wChan: 6, wReward: 38}
+	ev := provProfile{name: "evidence", nv: 6, nvExtra: 4, maxvals: 8, M: 8, epoch: 3, unb: 40 * sec, prelaunch: 4, lowPower: true, keyPool: 6,
+		wCreate: 2, wUpdate: 3, wRemove: 2, wOpt: 8, wAssign: 14, wStake: 16, wBlock: 16, wInfr: 4, wVal: 6, wEvid: 34}
+	streams["evidence"] = StreamDef{New: func(t *Trace) Runner { return newProvRunner(t) }, Gen: genProv(ev)}
 	streams["rewards"] = StreamDef{New: func(t *Trace) Runner { return newProvRunner(t) }, Gen: genProv(rw)}
 	streams["epoch"] = StreamDef{New: func(t *Trace) Runner { return newProvRunner(t) }, Gen: genProv(ep)}
+}
+
+// equivocation evidence: mostly valid duplicate votes of a validator's current consumer key, with
+// single-field mutations, keys of other consumers / replaced keys, heights around the consumer's
+// minimum evidence height, consumers sharing a chain id, and replays of the previous submission
+func (p *provRunner) genEvidence(r *Rng, prof provProfile) string {
+	if p.lastEvidence != "" && r.chance(22) {
+		return p.lastEvidence
+	}
+	ids := p.consumerIds()
+	c := "99"
+	if len(ids) > 0 && r.chance(96) {
+		c = ids[r.intn(len(ids))]
+		// prefer consumers that have a client
+		for try := 0; try < 3 && p.prev[c]["client"] == "-"; try++ {
+			c = ids[r.intn(len(ids))]
+		}
+	}
+	kaOf := func(c string, v int) (int, bool) {
+		for _, kv := range splitNE(p.prev[c]["ka"]) {
+			var a, b int
+			if n, _ := fmt.Sscanf(kv, "%d:%d", &a, &b); n == 2 && a == v {
+				return b, true
+			}
+		}
+		return v, false
+	}
+	v := r.intn(prof.nv + prof.nvExtra)
+	key, _ := kaOf(c, v)
+	switch {
+	case r.chance(10) && len(ids) > 1: // the key the validator uses on another consumer
+		key, _ = kaOf(ids[r.intn(len(ids))], v)
+	case r.chance(8): // its provider key although another one may be assigned
+		key = v
+	case r.chance(5):
+		key = p.genKey(r, prof)
+	}
+	chain := p.prev[c]["chain"]
+	if chain == "" {
+		chain = "c0-1"
+	}
+	chainA, chainB := chain, chain
+	switch {
+	case r.chance(6):
+		chainA, chainB = "provider-1", "provider-1"
+	case r.chance(6):
+		o := fmt.Sprintf("c%d-1", r.intn(4))
+		chainA, chainB = o, o
+	case r.chance(4):
+		chainB = fmt.Sprintf("c%d-1", r.intn(4))
+	}
+	var evmin int64
+	fmt.Sscan(p.prev[c]["evmin"], &evmin)
+	h := evmin + []int64{-1, 0, 0, 1, 1, 5, 100}[r.intn(7)]
+	if h < 1 {
+		h = 1
+	}
+	rd := int64(r.intn(3))
+	ty := int64(1 + r.intn(2))
+	if r.chance(2) {
+		ty = 32
+	}
+	ba := int64(1 + r.intn(5))
+	bb := ba + 1 + int64(r.intn(3))
+	switch {
+	case r.chance(6):
+		bb = ba
+	case r.chance(5):
+		ba, bb = bb, ba
+	case r.chance(6):
+		ba = 0
+	}
+	sa, aa, sb, ab := key, key, key, key
+	hb, rb, tb := h, rd, ty
+	okA, okB := 1, 1
+	other := p.genKey(r, prof)
+	if r.chance(50) {
+		other = r.intn(prof.nv)
+	}
+	switch r.intn(22) {
+	case 0:
+		hb = h + 1
+	case 1:
+		rb = rd + 1
+	case 2:
+		tb = 3 - ty
+	case 3:
+		ab = other // B names another validator, signed by the same key
+	case 4:
+		sb, ab = other, other // B is a genuine vote of somebody else
+	case 5:
+		okA = 0
+	case 6:
+		okB = 0
+	case 7:
+		sa, sb = other, other // both votes carry the victim's address but are signed by another key
+	case 8:
+		sb = other
+	}
+	hv := []string{fmt.Sprint(aa)}
+	for i := 0; i < r.intn(3); i++ {
+		hv = append(hv, fmt.Sprint(r.intn(prof.nv)))
+	}
+	hvs := strings.Join(hv, ",")
+	switch {
+	case r.chance(4):
+		hvs = fmt.Sprint(other)
+	case r.chance(2):
+		hvs = ""
+	case r.chance(2):
+		hvs = "nil"
+	}
+	s := fmt.Sprintf("dvote c=%s a=%d/%d/%s/%d/%d/%d/%d/%d b=%d/%d/%s/%d/%d/%d/%d/%d hv=%s",
+		c, sa, aa, chainA, h, rd, ty, ba, okA, sb, ab, chainB, hb, rb, tb, bb, okB, hvs)
+	p.lastEvidence = s
+	return s
+}
+
+// bulk: more consumers than the per-block queue limit (200) are due at the same time — for launch,
+// for an infraction-parameter change, and for removal.  Scripted with a small random tail; the seed
+// varies how many are over the limit and how they are spread over one or two timestamps.
+func init() {
+	streams["bulk"] = StreamDef{New: func(t *Trace) Runner { return newProvRunner(t) }, Gen: func(r *Rng, run Runner, n int, tier string) {
+		p := run.(*provRunner)
+		N := 201 + r.intn(9)
+		unb := 20 * sec
+		run.Do(fmt.Sprintf("init maxvals=4 M=3 epoch=50 unb=%d conns=0 tokens=3000000,2000000,1000000", unb))
+		block := func(dt int64) {
+			run.Do("stkend")
+			run.Do("end")
+			run.Do(fmt.Sprintf("begin dh=1 dt=%d", dt))
+		}
+		// all spawn at one of two nearby times, both due in the same block
+		for i := 0; i < N; i++ {
+			run.Do(fmt.Sprintf("create s=u%d chain=c%d-1 init=1 spawn=%d ps=1 topn=0 setcap=0 powcap=0 minstake=0 inactive=1 allow= deny= prio=", i%3, i%4, 2*sec+int64(r.intn(2))))
+			run.Do(fmt.Sprintf("optin v=%d c=%d key=- signer=%d", i%3, i, i%3))
+		}
+		run.Do("optin v=1 c=3 key=- signer=1")
+		block(3 * sec) // at most 200 are handled
+		block(1)       // the rest
+		block(1)
+		// an infraction-parameter change on every launched consumer, all in one block => all due at once
+		ids := p.consumerIds()
+		for _, id := range ids {
+			if p.prev[id]["phase"] == "3" {
+				run.Do(fmt.Sprintf("update s=%s c=%s infr=1 ds=0.010000000000000000:%d:1", p.ownerOf(id), id, 7*sec))
+			}
+		}
+		block(unb - 1) // one nanosecond early: nothing yet
+		block(1)       // due: at most 200
+		block(1)       // the rest
+		block(1)
+		// remove all launched consumers in one block => all removals due at once
+		for _, id := range p.consumerIds() {
+			if p.prev[id]["phase"] == "3" {
+				run.Do(fmt.Sprintf("remove s=%s c=%s", p.ownerOf(id), id))
+			}
+		}
+		block(unb - 1)
+		block(1)
+		block(1)
+		block(1)
+		_ = n
+	}}
 }
